@@ -16,7 +16,7 @@ EXPLANATION = ("(R1) the outbound sequence number is a monotone counter, used th
                "numbered record is acked, old ones are dropped after the ack, handlers run only for new records after the watermark "
                "update. (R5) old <=> seqnum <= watermark; the watermark only grows. (R6) only un-numbered records bypass the queue. "
                "(R7) records parked during selection are delivered first-in-first-out. TCP ordering and the trace equality are not decided.")
-TRUSTED_BASE = ["T1", "T2", "T4"]
+TRUSTED_BASE = ["T1", "T2", "T4", "T5"]
 MIN_OBLIGATIONS = 30
 
 OUT = "src/wormhole/_dilation/outbound.py"
@@ -372,8 +372,21 @@ def r10(tree, rep):
                           v["what"] + " (an OPEN is dropped as a duplicate and its DATA / CLOSE reach another subchannel)", v.get("site"), v.get("detail"), _count=False)
 
 
+def r11(tree, rep, tier):
+    """in the two-party product (engine A5) every connection handed to Inbound / Outbound (use_connection) has been taken away again
+    (stop_using_connection) before the next one arrives, whatever the order of loss, RECONNECT and stop: only then does Outbound
+    refill its unsent queue from the retransmission queue and replay it on the new connection"""
+    from .. import a5common
+    sums = a5common.explorations(tree, tier, rep)
+    a5common.fill_extra(rep, sums)
+    a5common.report(rep, "C10.R11", sums, ("connection-not-released",) + a5common.INTERNAL)
+
+
 def run(tree, rep, tier):
+    from .. import sharedstate
+    sharedstate.check(tree, rep, "C10.R0")
     r10(tree, rep)
+    r11(tree, rep, tier)
     r1(tree, rep)
     r2(tree, rep)
     r3(tree, rep)
